@@ -1,7 +1,7 @@
 (* C01 - End-to-end message fidelity, exactly-once delivery and ordering (one direction of a connection; the other
    direction is the same theorem with the roles exchanged, since it quantifies over both roles). *)
 From Gws Require Import Lib.Base Spec.Rfc6455 Model.Header Model.Writer Model.Window Model.Reader Model.EndToEnd
-  Proofs.WriterProofs Proofs.WindowProofs Proofs.EndToEndProofs Proofs.ReaderProofs.
+  Proofs.WriterProofs Proofs.WindowProofs Proofs.EndToEndProofs Proofs.ReaderProofs Proofs.StreamFidelity.
 Local Open Scope N_scope.
 
 Section C01.
@@ -28,12 +28,46 @@ Theorem C01_fidelity : forall c rc,
   exists st', read_stream utf8_valid inflate window sw_dict wwrite_total fuel rc st bs = (delivered ops, OMore _ st' false)
               /\ r_dps _ st' = w /\ cf_init _ st' = false.
 Proof. exact (fidelity utf8_valid deflate_raw inflate deflate_wf deflate_small H_flate). Qed.
+
+(* Streamed sends (WriteFile), permessage-deflate off: whatever the io.Reader returns per Read call (`reads`: any
+   chunk sizes, empty chunks included, ending with the chunk that comes with io.EOF), the frames split_reader writes -
+   first frame with the opcode, continuation frames, FIN on the last - fed to the peer's read loop deliver exactly ONE
+   message, same opcode, payload = the concatenation of the chunks in order. *)
+Theorem C01_stream_plain : forall c rc op reads keys frs st fuel,
+  r_server rc = negb (w_server c) -> w_pmd c = false -> limit_ok rc -> cf_init window st = false ->
+  (op = 1 \/ op = 2) -> reads_ok c reads keys ->
+  split_reader utf8_valid deflate_raw c op 0 reads keys = (frs, FOk) ->
+  (Z.of_nat (length (reads_payload reads)) <= r_limit rc)%Z ->
+  (r_utf8 rc && (op =? 1) && negb (utf8_valid (reads_payload reads))) = false ->
+  (length (concat frs) < fuel)%nat ->
+  exists st', read_stream utf8_valid inflate window sw_dict wwrite_total fuel rc st (concat frs)
+              = ([EvMsg op (reads_payload reads)], OMore window st' false).
+Proof. exact (stream_fidelity_plain utf8_valid deflate_raw inflate). Qed.
+
+(* Streamed sends with permessage-deflate: the compressor's output for the payload (preset dictionary = the window,
+   equal on both sides by C02_dict_is_history), handed to flateWriter in ANY sequence of Write calls, cut by it into
+   segments, framed (RSV1 on the first frame only) and read by the peer: exactly one message, the payload itself, and
+   the receiver's window advances by the payload. *)
+Theorem C01_stream_compressed : forall rc op server payload writes segs keys st fuel,
+  r_server rc = negb server -> r_pmd rc = true -> limit_ok rc -> cf_init window st = false ->
+  (op = 1 \/ op = 2) ->
+  concat writes = deflate_raw (sw_dict (r_dps window st)) payload ->
+  fw_run {| fw_index := 0; fw_buffers := [] |} writes = Some segs ->
+  (length segs <= length keys)%nat -> Forall (fun k => length k = 4%nat /\ wf_bytes k) keys ->
+  (Z.of_nat (length payload) <= r_limit rc)%Z ->
+  (Z.of_nat (length (strip_tail (concat writes))) <= r_limit rc)%Z ->
+  (r_utf8 rc && (op =? 1) && negb (utf8_valid payload)) = false ->
+  let wire := concat (map (encode_frame LShortest) (file_frames server true op 0 (seg_reads segs) keys)) in
+  (length wire < fuel)%nat ->
+  exists st', read_stream utf8_valid inflate window sw_dict wwrite_total fuel rc st wire = ([EvMsg op payload], OMore window st' false)
+              /\ r_dps window st' = wwrite_total (r_dps window st) payload.
+Proof. exact (stream_fidelity_compressed utf8_valid deflate_raw inflate deflate_wf H_flate). Qed.
 End C01.
 
 (* How the remaining clauses are covered:
    - any splitting of the byte stream into network reads: the reader model is a function of the byte string (harness varies chunking);
-   - streamed sends: C05_stream_frames / C05_stream_one_message / C05_flate_segments give the frame sequence and its payload,
-     C03_stream_refines delivers a fragmented message as one (the composition for WriteFile is exercised by the harness);
+   - streamed sends: C01_stream_plain / C01_stream_compressed above (built on C05_stream_frames, C05_flate_segments and
+     the fragment theorem C03_fragmented_message);
    - asynchronous API: tasks of one goroutine start in submission order and never overlap (C15_fifo, C15_mutual_exclusion),
      and each task writes its frame before returning (skeleton), so they reach the wire in queueing order;
    - concurrent senders: C08_wire_by_owner + C08_single_critical_section reduce any interleaving to some sequential order of whole messages;
@@ -49,4 +83,17 @@ Example C01_nonvacuous :
   end.
 Proof. vm_compute. reflexivity. Qed.
 
+(* a streamed send of three chunks (the middle one empty) from a client: three frames, one message *)
+Example C01_stream_nonvacuous :
+  let c := {| w_server := false; w_pmd := false; w_threshold := 512; w_wlimit := 1000; w_utf8 := false |} in
+  let rc := {| r_server := true; r_pmd := false; r_limit := 1000; r_utf8 := false |} in
+  let reads := [([104; 105], false); ([], false); ([33], true)] in
+  match split_reader (fun _ => true) (fun _ p => p) c 1 0 reads [[1; 2; 3; 4]; [5; 6; 7; 8]; [9; 9; 9; 9]] with
+  | (frs, FOk) => length frs = 3%nat /\ fst (recv_all (fun _ => true) (fun _ _ _ => None) rc sw_disabled (concat frs)) = [EvMsg 1 [104; 105; 33]]
+  | _ => False
+  end.
+Proof. vm_compute. split; reflexivity. Qed.
+
 Print Assumptions C01_fidelity.
+Print Assumptions C01_stream_plain.
+Print Assumptions C01_stream_compressed.
